@@ -257,8 +257,23 @@ fn root_edits(n: &Node, base_key: u32) -> Vec<(&'static str, Node)> {
         PkK(k) => { v.push(("key", PkK(other_key(*k)))); v.push(("leafkind", PkH(*k))); }
         PkH(k) => { v.push(("key", PkH(other_key(*k)))); v.push(("leafkind", PkK(*k))); }
         RawPkH(h) => v.push(("rawpkh", RawPkH(h / 100 * 100 + (h % 100 + 1) % 4))),
-        After(t) => { v.push(("lock", After(t + 1))); v.push(("leafkind", Older((*t).min(65535).max(1)))); }
-        Older(t) => { v.push(("lock", Older(t + 1))); v.push(("leafkind", After(*t))); }
+        After(t) => {
+            v.push(("lock", After(t + 1))); v.push(("leafkind", Older((*t).min(65535).max(1))));
+            // single-bit neighbours: every bit of the u32 matters to ==, cmp and hash alike,
+            // whatever consensus makes of it (unit threshold 500000000, BIP68 masks)
+            for b in [0u32, 7, 8, 15, 16, 21, 22, 23, 28, 29, 30] {
+                let t2 = t ^ (1 << b);
+                if t2 >= 1 && t2 < (1 << 31) { v.push(("lockbit", After(t2))); }
+            }
+            if *t < 500_000_000 { v.push(("lockunit", After(t + 500_000_000))); }
+        }
+        Older(t) => {
+            v.push(("lock", Older(t + 1))); v.push(("leafkind", After(*t)));
+            for b in [0u32, 7, 8, 15, 16, 21, 22, 23, 28, 29, 30] {
+                let t2 = t ^ (1 << b);
+                if t2 >= 1 && t2 < (1 << 31) { v.push(("lockbit", Older(t2))); }
+            }
+        }
         Hash(kind, h) => {
             v.push(("hash", Hash(*kind, (h + 1) % 4)));
             let k2 = match kind { HK::Sha256 => HK::Hash256, HK::Hash256 => HK::Sha256, HK::Ripemd160 => HK::Hash160, HK::Hash160 => HK::Ripemd160 };
@@ -642,6 +657,9 @@ fn ms_strings() -> Vec<String> {
         "and_v(v:pk(A),hash256(0000000000000000000000000000000000000000000000000000000000000001))",
         "thresh(2,pk(A),s:pk(B),s:pk(C))", "thresh(2,pk(A),s:pk(C),s:pk(B))",
         "t:or_c(pk(A),v:pk(B))", "or_d(pk(A),and_v(v:pk(B),older(5)))",
+        "or_d(pk(A),and_v(v:pk(B),older(65541)))", "or_d(pk(A),and_v(v:pk(B),older(4194309)))",
+        "and_v(v:pk(A),older(1))", "and_v(v:pk(A),older(65537))", "and_v(v:pk(A),after(1000000000))",
+        "and_v(v:pk(A),after(500000100))",
     ];
     v.iter().map(|s| s.to_string()).collect()
 }
@@ -675,6 +693,7 @@ fn descriptor_strings() -> Vec<String> {
 
 fn concrete_strings() -> Vec<String> {
     ["pk(A)", "pk(B)", "after(100)", "after(101)", "older(100)", "UNSATISFIABLE", "TRIVIAL",
+     "older(5)", "older(65541)", "older(4194309)", "older(4259845)", "older(1)", "older(65537)", "after(9)", "after(1000000000)", "after(500000100)", "after(65636)", "and(pk(A),older(65541))", "and(pk(A),older(5))", "or(pk(A),after(1000000000))", "or(pk(A),after(9))",
      "sha256(0000000000000000000000000000000000000000000000000000000000000001)",
      "hash256(0000000000000000000000000000000000000000000000000000000000000001)",
      "ripemd160(0000000000000000000000000000000000000001)", "hash160(0000000000000000000000000000000000000001)",
@@ -687,6 +706,7 @@ fn concrete_strings() -> Vec<String> {
 
 fn semantic_strings() -> Vec<String> {
     ["pk(A)", "pk(B)", "after(100)", "after(101)", "older(100)", "UNSATISFIABLE", "TRIVIAL",
+     "older(5)", "older(65541)", "older(4194309)", "older(4259845)", "older(1)", "older(65537)", "after(9)", "after(1000000000)", "after(500000100)", "after(65636)", "and(pk(A),older(65541))", "and(pk(A),older(5))", "or(pk(A),after(1000000000))", "or(pk(A),after(9))",
      "sha256(0000000000000000000000000000000000000000000000000000000000000001)",
      "hash256(0000000000000000000000000000000000000000000000000000000000000001)",
      "and(pk(A),pk(B))", "and(pk(B),pk(A))", "or(pk(A),pk(B))", "or(pk(B),pk(A))",
